@@ -552,4 +552,92 @@ def mkInvEnabler (o : Op K D) : Except String (Op K D) :=
 
 end build
 
+/-! ### construction scripts: the expression trees of the property -/
+
+/-- operator expressions as written by a user: leaves of the library and `+ - @ .adjoint .inverse -x x.scale(c)`,
+    `SandwichOperator.make`, `InversionEnabler`, `BlockDiagonalOperator` (`missing` = an absent key) -/
+inductive Expr (K D : Type) where
+  | leaf (id cap dom tgt : Nat)
+  | scaling (dom : Nat) (c : K) (dt : Nat)
+  | diag (dom : Nat) (d : D) (dt : Nat)
+  | null (dom tgt : Nat)
+  | add (a b : Expr K D)
+  | sub (a b : Expr K D)
+  | matmul (a b : Expr K D)
+  | adjoint (a : Expr K D)
+  | inverse (a : Expr K D)
+  | neg (a : Expr K D)
+  | scale (a : Expr K D) (c : K)
+  | sandwich (bun cheese : Expr K D) (dt : Nat)
+  | sandwichNone (bun : Expr K D) (dt : Nat)
+  | invEnabler (a : Expr K D)
+  | block (dom : Nat) (subdoms : List Nat) (ents : List (Expr K D))
+  | missing
+deriving Inhabited
+
+def isMissing : Expr K D → Bool | .missing => true | _ => false
+
+/-- first error in list order, else all values -/
+def seqExcept {α : Type} : List (Except String α) → Except String (List α)
+  | [] => .ok []
+  | .error e :: _ => .error e
+  | .ok x :: rest => match seqExcept rest with
+    | .ok xs => .ok (x :: xs)
+    | .error e => .error e
+
+section buildExpr
+variable (S : Sem K D R)
+
+/-- evaluate a construction script with the (modelled) NIFTy constructors and operator overloads -/
+def build : Expr K D → Except String (Op K D)
+  | .leaf id cap dom tgt => .ok (Op.leaf id cap dom tgt)
+  | .scaling d c dt => .ok (Op.scaling d c dt)
+  | .diag d v dt => .ok (Op.diag d v 0 dt)
+  | .null d t => .ok (Op.null d t)
+  | .add a b => match build a, build b with
+    | .ok x, .ok y => mkSum S [x, y] [false, false]
+    | .error e, _ => .error e
+    | _, .error e => .error e
+  | .sub a b => match build a, build b with
+    | .ok x, .ok y => mkSum S [x, y] [false, true]
+    | .error e, _ => .error e
+    | _, .error e => .error e
+  | .matmul a b => match build a, build b with
+    | .ok x, .ok y => matmul S x y
+    | .error e, _ => .error e
+    | _, .error e => .error e
+  | .adjoint a => match build a with
+    | .ok x => .ok (adjointOf S x)
+    | .error e => .error e
+  | .inverse a => match build a with
+    | .ok x => if flipRaises S x INVERSE_BIT then .error "ZeroDivisionError" else .ok (inverseOf S x)
+    | .error e => .error e
+  | .neg a => match build a with
+    | .ok x => scale S x (S.kneg S.kone)
+    | .error e => .error e
+  | .scale a c => match build a with
+    | .ok x => scale S x c
+    | .error e => .error e
+  | .sandwich bun cheese dt => match build bun, build cheese with
+    | .ok b, .ok c => mkSandwich S b (some c) dt
+    | .error e, _ => .error e
+    | _, .error e => .error e
+  | .sandwichNone bun dt => match build bun with
+    | .ok b => mkSandwich S b none dt
+    | .error e => .error e
+  | .invEnabler a => match build a with
+    | .ok x => mkInvEnabler x
+    | .error e => .error e
+  | .block dm sd ents =>
+    match seqExcept (ents.map fun e =>
+        if isMissing e then (.ok none : Except String (Option (Op K D))) else
+        match build e with
+        | .ok o => .ok (some o)
+        | .error err => .error err) with
+    | .ok es => mkBlock dm sd es
+    | .error e => .error e
+  | .missing => .error "bad-script"
+
+end buildExpr
+
 end NiftyVerif.OpAlgebra
